@@ -159,8 +159,21 @@ def pattern_change_scenarios():
     return out
 
 
+def anchored_scenarios():
+    """a pattern anchored at the root says nothing about entries of the same name further down: they are part of the
+    directory hashes, and a change to one of them is a change"""
+    out = []
+    for kind in ("none", "alter", "remove", "add"):
+        tree = {"index.xml": "top", "Reel1/index.xml": "one", "Reel2/Sub/index.xml": "two", "Reel2/clip.mov": "c"}
+        ops = [{"op": "create", "at": "", "h": ["md5"], "now": "2026-03-01 12:00:01", "i": ["/index.xml"]}]
+        ops += {"none": [], "alter": [{"op": "write", "path": "Reel2/Sub/index.xml", "data": "ALTERED"}], "remove": [{"op": "rm", "path": "Reel1/index.xml"}], "add": [{"op": "write", "path": "Reel2/index.xml", "data": "n"}]}[kind]
+        ops.append({"op": "verifydh", "at": ""})
+        out.append({"profile": "c09-anchored", "root": "root", "tree": tree, "ops": ops, "c09": {"kind": kind, "changed": kind != "none", "n_seal": 1, "patterns": ["/index.xml"], "flat": False, "resealed": False}})
+    return out
+
+
 def run(ctx):
-    scs = pattern_change_scenarios() + [build(ctx.seed * 1000507 + i) for i in range(ctx.scale(150, 2500))]
+    scs = anchored_scenarios() + pattern_change_scenarios() + [build(ctx.seed * 1000507 + i) for i in range(ctx.scale(150, 2500))]
     # general scenarios: only the "never aborts" part is judged there
     scs += _scn.standard_pool(ctx, ctx.scale(25, 400), ctx.scale(15, 250))
     return _scn.run_scn(ctx, scs, monitor, extra_fails=largefiles.extra(ctx), witness_ids=("D2a", "D2b", "D2c"),
